@@ -110,6 +110,11 @@ Fixpoint env_of (deps : list nat) (vals : list pyval) (p : nat) : pyval :=
 Definition sem_of (W : workbook) (esem : esem_t) (n : nat) (vals : list pyval) : pyval :=
   esem n (env_of (wb_deps W n) vals).
 
+(* every meaning of Graph.v's type is an environment meaning that looks only at
+   the declared precedents: Graph.v's typing of [sem] IS [reads_declared] *)
+Definition esem_of (W : workbook) (sem : nat -> list pyval -> pyval) : esem_t :=
+  fun n env => sem n (map env (wb_deps W n)).
+
 Fixpoint espec_fuel (W : workbook) (esem : esem_t) (f : nat) (inp : nat -> pyval) (n : nat) : pyval :=
   match f with
   | O => VNone
